@@ -176,6 +176,7 @@ ApplyOp(S, o) ==
     CASE o.op = "keys"   -> SetKeys(S, o.keys)
       [] o.op = "auth"   -> SetAuth(S, o.mode, o.r, o.w)
       [] o.op = "dev"    -> SetDev(S, o.on)
+      [] o.op = "storm"  -> SetDev(SetKeys(S, o.keys), o.on)
       [] o.op = "expire" -> ExpireSession(S, o.s)
       [] o.op = "clean"  -> CleanSessions(S)
       [] o.op = "req"    -> IF CreatesSession(S, o.q) THEN AddSession(S) ELSE S
